@@ -73,6 +73,9 @@ struct Recorder {
     bounds: Vec<Vec<usize>>,
     /// inode numbers of the live files at every snapshot (a replaced file has a new inode)
     inos: Vec<BTreeMap<String, u64>>,
+    /// every snapshotted file stays open until the run ends, so that the inode number of a file
+    /// that is later replaced cannot be handed out again
+    handles: Vec<fs::File>,
 }
 
 impl Recorder {
@@ -80,7 +83,7 @@ impl Recorder {
         let live = run_dir.join("live");
         let _ = fs::remove_dir_all(run_dir);
         fs::create_dir_all(&live).expect("create live dir");
-        Recorder { run_dir: run_dir.to_path_buf(), live, k: 0, points: vec![], ops: vec![], bounds: vec![], inos: vec![] }
+        Recorder { run_dir: run_dir.to_path_buf(), live, k: 0, points: vec![], ops: vec![], bounds: vec![], inos: vec![], handles: vec![] }
     }
     /// `content`: None = no readable structure exists at this point (a builder in progress)
     fn snap(&mut self, op: &str, sync: bool, content: Option<Vec<u8>>, bounds: Vec<usize>) {
@@ -95,9 +98,12 @@ impl Recorder {
         self.bounds.push(bounds);
         let mut m = BTreeMap::new();
         for f in list_files(&self.live) {
-            if let Ok(md) = fs::metadata(self.live.join(&f)) {
+            if let Ok(h) = fs::File::open(self.live.join(&f)) {
                 use std::os::unix::fs::MetadataExt;
-                m.insert(f, md.ino());
+                if let Ok(md) = h.metadata() {
+                    m.insert(f, md.ino());
+                }
+                self.handles.push(h);
             }
         }
         self.inos.push(m);
@@ -180,7 +186,8 @@ impl Elem for [u8; 24] {
     }
 }
 
-struct MV<T>(PhantomData<T>);
+/// `.1`: MmapVecConfig::sync_on_write (every mutating call rewrites the file)
+struct MV<T>(PhantomData<T>, bool);
 
 fn mv_content<T: Elem>(v: &MmapVec<T>) -> Vec<u8> {
     let mut o = Vec::new();
@@ -199,13 +206,17 @@ impl<T: Elem> Subject for MV<T> {
         "mmapvec"
     }
     fn variant(&self) -> String {
-        T::NAME.to_string()
+        if self.1 {
+            format!("{}-sow", T::NAME)
+        } else {
+            T::NAME.to_string()
+        }
     }
     fn drive(&self, rng: &mut Rng, rec: &mut Recorder, big: bool) {
         let path = rec.live.join("vec.mmap");
         let c0 = if big { 2048 } else { *rng.pick(&[4usize, 16, 48]) };
         let g = *rng.pick(&[1.5f64, 2.0, 1.618]);
-        let cfg = MmapVecConfig::builder().with_initial_capacity(c0).with_growth_factor(g).build();
+        let cfg = MmapVecConfig::builder().with_initial_capacity(c0).with_growth_factor(g).with_sync_on_write(self.1).build();
         let mut v = match MmapVec::<T>::create(&path, cfg.clone()) {
             Ok(v) => v,
             Err(_) => return,
@@ -272,7 +283,14 @@ impl<T: Elem> Subject for MV<T> {
                         ("sync", ok)
                     }
                 };
-                rec.snap(name, sync, Some(mv_content(&v)), mv_bounds(&v));
+                // sync_on_write: the state is durable when the file, read back through the public
+                // API, holds exactly the live content
+                let durable = sync
+                    || (self.1
+                        && MmapVec::<T>::open(&path, MmapVecConfig::default())
+                            .map(|d| mv_content(&d) == mv_content(&v))
+                            .unwrap_or(false));
+                rec.snap(name, durable, Some(mv_content(&v)), mv_bounds(&v));
             }
             let ok = v.sync().is_ok();
             rec.snap("sync", ok, Some(mv_content(&v)), mv_bounds(&v));
@@ -637,19 +655,23 @@ impl Subject for DzDict {
             let n = rng.range(3, 9) as usize;
             rng.bytes(n).into_iter().map(|b| b'a' + b % 26).collect()
         }).collect();
-        for _gen in 0..2 {
+        // generations of the same length: a rewrite then changes blocks, not the layout
+        let tlen = rng.range(600, 2600) as usize;
+        let min_pat = 3 + rng.below(2) as usize;
+        for _gen in 0..3 {
             let mut train = Vec::new();
-            while train.len() < rng.range(300, 1500) as usize {
+            while train.len() < tlen {
                 let w = rng.below(words.len() as u64) as usize;
                 train.extend_from_slice(&words[w]);
                 train.push(b' ');
             }
+            train.truncate(tlen);
             let cfg = SuffixArrayDictionaryConfig {
                 min_frequency: 2,
                 max_bfs_depth: 3,
                 max_cache_states: 256,
                 use_memory_pool: false,
-                min_pattern_length: 3 + rng.below(2) as usize,
+                min_pattern_length: min_pat,
                 ..Default::default()
             };
             let d = match SuffixArrayDictionary::new(&train, cfg) {
@@ -668,10 +690,11 @@ impl Subject for DzDict {
 
 fn subjects() -> Vec<Box<dyn Subject>> {
     vec![
-        Box::new(MV::<u8>(PhantomData)),
-        Box::new(MV::<u32>(PhantomData)),
-        Box::new(MV::<u64>(PhantomData)),
-        Box::new(MV::<[u8; 24]>(PhantomData)),
+        Box::new(MV::<u8>(PhantomData, false)),
+        Box::new(MV::<u32>(PhantomData, false)),
+        Box::new(MV::<u32>(PhantomData, true)),
+        Box::new(MV::<u64>(PhantomData, false)),
+        Box::new(MV::<[u8; 24]>(PhantomData, false)),
         Box::new(Plain),
         Box::new(ZipOff("raw")),
         Box::new(ZipOff("crc")),
@@ -808,7 +831,8 @@ fn mode_drive(a: &Args) {
                 names.sort();
                 let is_sync = rec.points[k - 1]["sync"] == json!(true);
                 // dense truncation (every byte): sync snapshots; quick tier: only the last one of the run
-                let dense = !big && is_sync && (a.thorough() || k == last_explicit);
+                let small = list_files(&dk).iter().all(|f| fs::metadata(dk.join(f)).map(|m| m.len() <= 512).unwrap_or(true));
+                let dense = !big && is_sync && (a.thorough() || k == last_explicit || small);
                 let mut first = true;
                 if names.is_empty() {
                     names.push(String::new());
@@ -957,6 +981,7 @@ fn mode_child(a: &Args) {
 // ---------------------------------------------------------------- mode images
 
 #[derive(Clone)]
+#[allow(dead_code)]
 struct Item {
     i: usize,
     run: usize,
@@ -966,6 +991,7 @@ struct Item {
     kind: String,
     j: usize,
     len: usize,
+    flen: usize,
 }
 
 fn run_slice(run: &Value, items: &[Item], slice_no: usize, out: &Path, limit_ms: u64) -> BTreeMap<usize, Value> {
@@ -1067,6 +1093,7 @@ fn mode_images(a: &Args) {
                 kind: d[0].as_str().unwrap().to_string(),
                 j: d[1].as_u64().unwrap() as usize,
                 len: d[2].as_u64().unwrap() as usize,
+                flen: fl["flen"].as_u64().unwrap_or(0) as usize,
             });
             n += 1;
         }
